@@ -167,6 +167,12 @@ def run(run):
                         cand = [n for n in names + formals if n not in used and n not in QG.RESERVED]
                         if cand:
                             variants.append(("alias-renamed", rename_alias(q, a, rng.choice(cand))))
+                        # ... and names that differ from another alias of the query only in the case of their letters
+                        twins = [t for _, o in q.from_items if o != a for t in (o.upper(), o.lower(), o.capitalize(), o.swapcase())
+                                 if t != o and t not in used and t not in QG.RESERVED]
+                        if twins:
+                            stats["case_twin_aliases"] += 1
+                            variants.append(("alias-renamed-to-case-twin", rename_alias(q, a, rng.choice(twins))))
                     for pj, p in enumerate(q.preds):
                         for _, n in p.params:
                             cand = [x for x in names + [a for _, a in q.from_items] if x not in {m for _, m in p.params} and x not in QG.RESERVED and x not in kinds and x != p.name]
